@@ -145,6 +145,78 @@ def replay(ctx, data):
 
 
 # =================================================================================================
+# hand-written cases (trees, so the spec runs on the intended tree like for generated programs); they head their stream
+# =================================================================================================
+
+def _show(*xs):
+    return ExprS(Call('显示', list(xs)))
+
+
+def hand_flow():
+    """C02: 输出 inside 每当 ends the loop before the condition is looked at again; an uncaught 抛出 is no loop signal"""
+    inc = lambda c: ExprS(Assign(Var(c), Bin('+', Var(c), Num('1'))))
+    out = []
+    # the condition cannot be evaluated once the last pass has run (index past the end): the method yields its 输出 value
+    out.append(Program([], [
+        Func('找末', ['列'], [Decl(['位'], Num('0')),
+                             While(Bin('ne', Index(Var('列'), Bin('+', Var('位'), Num('1'))), Num('0')),
+                                   [inc('位'), If(Bin('ge', Var('位'), Prop(Var('列'), '长度')), [Ret(Var('位'))])]),
+                             Ret(Num('-1'))]),
+        _show(Call('找末', [Arr([Num('1'), Num('2'), Num('3')])])), _show(Str('完'))]))
+    # the condition has an effect: it is evaluated once per pass and once more only when a pass ended normally
+    out.append(Program([], [
+        MARK, Decl(['计'], Num('0')),
+        Func('转', [], [While(Call('记', [Str('问'), Bin('lt', Var('计'), Num('5'))]),
+                             [inc('计'), If(Bin('eq', Var('计'), Num('2')), [Ret(Var('计'))])]), Ret(Num('-1'))]),
+        _show(Call('转', [])), _show(Var('计'))]))
+    # at program level, division by zero in the condition after the pass that executed 输出
+    out.append(Program([], [
+        Decl(['计'], Num('0')),
+        While(Bin('gt', Bin('/', Num('6'), Bin('-', Num('2'), Var('计'))), Num('0')),
+              [inc('计'), _show(Var('计')), If(Bin('ge', Var('计'), Num('2')), [Ret(Str('完'))])]),
+        _show(Str('不达'))]))
+    # a thrown exception travels through running 每当 loops (in the loop body, and in a callee): nothing after it runs
+    out.append(Program([], [
+        Func('验', ['数'], [If(Bin('lt', Var('数'), Num('0')), [Throw('异常', [Str('负')])]), Ret(Var('数'))]),
+        Decl(['计'], Num('0')),
+        While(Bin('lt', Var('计'), Num('3')), [inc('计'), _show(Call('验', [Bin('-', Num('1'), Var('计'))]))]),
+        _show(Str('不达'))]))
+    out.append(Program([], [
+        Decl(['计'], Num('0')),
+        While(Bin('lt', Var('计'), Num('3')), [inc('计'), If(Bin('eq', Var('计'), Num('2')), [Throw('异常', [Str('二')])]), _show(Var('计'))]),
+        _show(Str('不达'))]))
+    return [(p, {}) for p in out]
+
+
+def hand_exc():
+    """C09: after an exception has been handled — by a handler that re-raised and an outer one, or several calls above the raise
+    point — every frame of the failed calls is gone: the caller's 其 is its own receiver, the program body has none"""
+    out = []
+    acct = Class('户', [('名', Str('无')), ('余', Num('100'))], [
+        Func('结算', ['数'], [Decl(['果'], Call('安全扣', [Var('数')])), _show(This('名'), Var('果')),
+                             ExprS(Assign(This('余'), Bin('-', This('余'), Num('1')))), Ret(This('余'))]),
+        Func('深扣', ['数'], [Ret(Call('扣', [Var('数')]))], [('异常', [_show(Str('深拦')), Ret(Num('-2'))])]),
+        Func('转', ['数'], [Decl(['果'], MCall(This('伴'), [('深扣', [Var('数')])])), _show(This('名'), Var('果')),
+                           ExprS(Assign(This('余'), Bin('-', This('余'), Num('1')))), Ret(This('余'))])])
+    acct.props.append(('伴', Var('空')))
+    common = [
+        acct,
+        Func('扣', ['数'], [If(Bin('gt', Var('数'), Num('100')), [Throw('异常', [Str('不足')])]), Ret(Var('数'))],
+             [('异常', [_show(Str('回滚'), This('内容')), Throw('异常', [Str('已回滚')])])]),
+        Func('安全扣', ['数'], [Ret(Call('扣', [Var('数')]))], [('异常', [_show(Str('安拦'), This('内容')), Ret(Num('-1'))])]),
+        Decl(['甲'], New('户', [])), ExprS(Assign(Prop(Var('甲'), '名'), Str('甲'))),
+        Decl(['乙'], New('户', [])), ExprS(Assign(Prop(Var('乙'), '名'), Str('乙'))),
+        ExprS(Assign(Prop(Var('甲'), '伴'), Var('乙')))]
+    # log-and-re-throw below, handled by the next method up; its caller is a method and goes on with 其
+    out.append(Program([], common + [_show(MCall(Var('甲'), [('结算', [Num('500')])])), _show(Prop(Var('甲'), '余'), Prop(Var('乙'), '余'))]))
+    # the same, then the program body reads 其 (it has no receiver: an error, not some dead frame's object)
+    out.append(Program([], common + [_show(Call('安全扣', [Num('500')])), _show(This('名'))]))
+    # the failure is handled two calls above the raise point inside ANOTHER object's method; the first object goes on with 其
+    out.append(Program([], common + [_show(MCall(Var('甲'), [('转', [Num('500')])])), _show(Prop(Var('甲'), '余'), Prop(Var('乙'), '余'))]))
+    return [(p, {}) for p in out]
+
+
+# =================================================================================================
 # generators
 # =================================================================================================
 
@@ -276,6 +348,14 @@ class G:
     # ---- statements (C02) --------------------------------------------------------------------------
     def cond(self, env, depth=2):
         rng = self.rng
+        c = self.cond0(env, depth)
+        if getattr(self, 'marked_conds', False) and rng.random() < 0.15:
+            # a condition with an observable effect: it is evaluated exactly when (and as often as) the manual says
+            c = Call('记', [Num(str(self.fresh())), c])
+        return c
+
+    def cond0(self, env, depth=2):
+        rng = self.rng
         nv = [n for n, t in env.items() if t == 'num']
         r = rng.random()
         if nv and r < 0.55:
@@ -284,6 +364,51 @@ class G:
         if r < 0.75:
             return Var('真') if rng.random() < 0.7 else Var('假')
         return self.expr('bool', depth, env, 0.02, marks=False)
+
+    def while_loop(self, out, env, depth, in_func):
+        """每当 with a counter incremented first (so every loop terminates).  Three kinds of condition:
+        pure and total (计 < K); with an observable effect (（记：n、计 < K） displays n at every evaluation); partial — it can be
+        evaluated for exactly K passes (an index into a K-item list, a division by K - 计), the pass that makes it unevaluable
+        leaves the loop by 输出 / 结束循环 (or does not: then the fault is the documented result)"""
+        rng = self.rng
+        c = '计%d' % self.fresh()
+        out.append(Decl([c], Num('0')))
+        env2 = dict(env)
+        env2[c] = 'num'
+        bound = rng.choice([0, 1, 2, 2, 3, 3])
+        inner = self.stmts(rng.randint(1, 3), env2, depth - 1, True, in_func)
+        cond = Bin('lt', Var(c), Num(str(bound)))
+        k = rng.random() if getattr(self, 'marked_conds', False) else 0.0
+        if k < 0.5:
+            pass
+        elif k < 0.75:
+            cond = Call('记', [Num(str(self.fresh())), cond])
+        else:
+            bound = max(bound, 1)
+            kk = rng.random()
+            if kk < 0.4:
+                lst = '序%d' % self.fresh()
+                out.append(Decl([lst], Arr([Num('1') for _ in range(bound)])))
+                cond = Bin('eq', Index(Var(lst), Bin('+', Var(c), Num('1'))), Num('1'))
+            elif kk < 0.7:
+                ks = KEYS[:bound]
+                dic = '表%d' % self.fresh()
+                out.append(Decl([dic], Dict([(Var(kx), Num(str(i + 1))) for i, kx in enumerate(ks)])))
+                lst = '序%d' % self.fresh()
+                out.append(Decl([lst], Arr([Str(kx) for kx in ks] + [Str('无')])))
+                cond = Bin('gt', Index(Var(dic), Index(Var(lst), Bin('+', Var(c), Num('1')))), Num('0'))
+            else:
+                cond = Bin('gt', Bin('/', Num('6'), Bin('-', Num(str(bound)), Var(c))), Num('0'))
+            if rng.random() < 0.3:
+                cond = Call('记', [Num(str(self.fresh())), cond])
+            leave = rng.choice(['ret', 'ret', 'ret', 'brk', 'none'])
+            last = Bin('ge', Var(c), Num(str(bound)))
+            if leave == 'ret':
+                inner.append(If(last, [Ret(self.expr(rng.choice(['num', 'bool']), 1, env2, 0.0, marks=False))]))
+            elif leave == 'brk':
+                inner.append(If(last, [Break()]))
+        body = [ExprS(Assign(Var(c), Bin('+', Var(c), Num('1'))))] + inner
+        out.append(While(cond, body))
 
     def stmts(self, n, env, depth, in_loop, in_func):
         rng = self.rng
@@ -300,12 +425,7 @@ class G:
                 els = self.stmts(rng.randint(1, 2), env, depth - 1, in_loop, in_func) if rng.random() < 0.5 else None
                 out.append(If(self.cond(env, 1), then, elifs, els))
             elif r < 0.54:
-                c = '计%d' % self.fresh()
-                out.append(Decl([c], Num('0')))
-                env2 = dict(env)
-                env2[c] = 'num'
-                body = [ExprS(Assign(Var(c), Bin('+', Var(c), Num('1'))))] + self.stmts(rng.randint(1, 3), env2, depth - 1, True, in_func)
-                out.append(While(Bin('lt', Var(c), Num(str(rng.choice([0, 1, 2, 2, 3, 3])))), body))
+                self.while_loop(out, env, depth, in_func)
             elif r < 0.68:
                 names = [['项%d' % self.fresh()], ['键%d' % self.fresh(), '值%d' % self.fresh()], []][rng.choice([0, 0, 1, 1, 2])]
                 if rng.random() < 0.5:
@@ -334,23 +454,35 @@ class G:
                 v = '变%d' % self.fresh()
                 out.append(Decl([v], self.expr('num', 1, env, 0.0, marks=False)))
                 env[v] = 'num'
+            elif r < 0.95 and getattr(self, 'flow_throws', False):
+                # an exception nobody handles ends every enclosing loop, method and the program
+                out.append(Throw('异常', [Str('误%d' % self.fresh())]))
+            elif r < 0.97 and getattr(self, 'callables', None):
+                # a call of an earlier method from inside whatever block this is: its 输出 / 抛出 / loop signals are its own
+                out.append(ExprS(Call('显示', [Call(rng.choice(self.callables), [])])))
             else:
                 out.append(ExprS(self.expr(rng.choice(['num', 'bool']), 2, env, 0.0, marks=False)))
         return out
 
     def flow_program(self, depth):
         rng = self.rng
-        body = []
+        self.marked_conds = True
+        self.flow_throws = rng.random() < 0.5
+        self.callables = []
+        body = [MARK]
         nf = rng.choice([0, 0, 1, 2])
         fnames = []
         for i in range(nf):
             fn = '法%d' % self.fresh()
-            fnames.append(fn)
             body.append(Func(fn, [], self.stmts(rng.randint(2, 5), {}, depth, False, True)))
+            fnames.append(fn)
+            self.callables = list(fnames)
         main = self.stmts(rng.randint(2, 6), {}, depth, False, False)
         for fn in fnames:
             pos = rng.randint(0, len(main))
             main.insert(pos, ExprS(Call('显示', [Call(fn, [])])))
+        self.marked_conds = self.flow_throws = False
+        self.callables = []
         return Program([], body + main), {}
 
     # ---- copy / alias histories (C07) --------------------------------------------------------------
@@ -573,6 +705,11 @@ class G:
         depth = rng.choice([0, 3, 10, 50, 300])
         body.append(Func('递', ['深'], [If(Bin('le', Var('深'), Num('0')), [Ret(Num('0'))]),
                                         Ret(Bin('+', Num('1'), Call('递', [Bin('-', Var('深'), Num('1'))])))]))
+        # fails `深` calls below its first caller (a thrown exception, a runtime fault or an unknown method)
+        body.append(Func('坠', ['深'], [If(Bin('le', Var('深'), Num('0')),
+                                          [rng.choice([Throw('异常', [Str('底')]), ExprS(Call('显示', [Bin('/', Num('1'), Num('0'))])),
+                                                       ExprS(MCall(Num('1'), [('无此法', [])]))])]),
+                                        Ret(Bin('+', Num('1'), Call('坠', [Bin('-', Var('深'), Num('1'))])))]))
         # a type with defaults, constructor, methods
         body.append(Class('点', [('横', Num('1')), ('竖', Arr([Num('0')])), ('下', Var('空')),
                                  ('格', Arr([Arr([Num('0'), Num('0')]), Arr([Num('0'), Num('0')])])),
@@ -586,7 +723,14 @@ class G:
                            # links between objects: a chain's intermediate result is ANOTHER object
                            Func('接', ['另'], [ExprS(Assign(This('下'), Var('另'))), Ret(Var('另'))]),
                            Func('取下', [], [Ret(This('下'))]),
-                           Func('取横', [], [Ret(This('横'))])],
+                           Func('取横', [], [Ret(This('横'))]),
+                           # a method of one object calls a method of ANOTHER object (其下) that handles a failure raised `深` calls
+                           # below it; afterwards 其 is still the first object: its own 横 is read and written
+                           Func('探', ['深'], [Decl(['果'], MCall(This('下'), [('守', [Var('深')])])),
+                                              ExprS(Assign(This('横'), Bin('+', This('横'), Num('100')))),
+                                              Ret(Arr([Var('果'), This('横')]))]),
+                           Func('守', ['深'], [ExprS(Call('显示', [Str('守'), This('横')])), Ret(Call('坠', [Var('深')]))],
+                                [('异常', [ExprS(Call('显示', [Str('守拦')])), Ret(Num('-1'))])])],
                           # 何为 … ？ blocks are part of the grammar (they are compiled and stored; nothing reads them: the name
                           # stays an unknown property)
                           getters=([Func('和', [], [Ret(Bin('+', This('横'), Num('1')))], getter=True)] if rng.random() < 0.4 else [])))
@@ -597,6 +741,22 @@ class G:
             ctor_ar = 0
         main = []
         objs = []
+
+        def show_objs():
+            return ExprS(Call('显示', [Prop(Var(x), '横') for x in objs] + [Prop(Var(x), '竖') for x in objs] +
+                              [Prop(Var(x), '格') for x in objs] + [Prop(Var(x), '表') for x in objs]))
+
+        if rng.random() < 0.3:
+            # two linked objects; a method of the first calls a method of the second, which handles a failure raised 0–3 calls below
+            # it; the first then goes on with 其
+            a, b = '体%d' % self.fresh(), '体%d' % self.fresh()
+            for o in (a, b):
+                main.append(Decl([o], New('点', [Num(rng.choice(SMALL_INTS)) for _ in range(ctor_ar)])))
+                objs.append(o)
+            main.append(ExprS(MCall(Var(a), [('接', [Var(b)])])))
+            for _ in range(rng.randint(1, 2)):
+                main.append(ExprS(Call('显示', [MCall(Var(a), [('探', [Num(str(rng.randint(0, 3)))])])])))
+                main.append(show_objs())
         for _ in range(rng.randint(3, 9)):
             r = rng.random()
             if r < 0.3:
@@ -635,17 +795,20 @@ class G:
                     main.append(ExprS(Call('显示', [Var(y)])))
                 elif k < 0.8:
                     main.append(ExprS(Call('显示', [Prop(Var(o), '横'), Prop(Var(o), '竖')])))
-                elif k < 0.84 and len(objs) >= 2:
+                elif k < 0.87 and len(objs) >= 2:
                     # link two different objects, then walk the chain: every link runs with ITS receiver as 其
                     a, b = rng.sample(objs, 2)
                     main.append(ExprS(MCall(Var(a), [('接', [Var(b)])])))
-                    main.append(ExprS(Call('显示', [MCall(Var(a), [('取下', []), ('取横', [])]), MCall(Var(a), [('取下', []), ('移', [Num('10')])])])))
-                elif k < 0.9:
+                    if rng.random() < 0.5:
+                        main.append(ExprS(Call('显示', [MCall(Var(a), [('取下', []), ('取横', [])]), MCall(Var(a), [('取下', []), ('移', [Num('10')])])])))
+                    else:
+                        # … and a failure handled inside the other object's method, 0–3 calls below the handler
+                        main.append(ExprS(Call('显示', [MCall(Var(a), [('探', [Num(str(rng.randint(0, 3)))])])])))
+                elif k < 0.93:
                     main.append(ExprS(Call('显示', [MCall(Var(o), [(rng.choice(['无此法', '移']), [])])])))
                 else:
                     main.append(ExprS(Call('显示', [Prop(Var(o), rng.choice(['无此性', '横', '和']))])))
-                main.append(ExprS(Call('显示', [Prop(Var(x), '横') for x in objs] + [Prop(Var(x), '竖') for x in objs] +
-                                       [Prop(Var(x), '格') for x in objs] + [Prop(Var(x), '表') for x in objs])))
+                main.append(show_objs())
             else:
                 main.append(ExprS(Call('显示', [MCall(Num(rng.choice(SMALL_INTS)), [('加', [Num('1')]), ('乘', [Num('2')])])])))
         return Program([], body + main), {}
@@ -674,12 +837,45 @@ class G:
         rng = self.rng
         body = [Class('自定错', [('内容', Str(''))], []),
                 Func('自定错', ['话'], [ExprS(Assign(This('内容'), Var('话')))], ctor=True)]
-        depth = rng.randint(1, 4)
-        fault_at = rng.randint(1, depth)
+        depth = rng.choice([1, 2, 2, 3, 3, 4, 4, 5])
+        fault_at = rng.randint(1, depth) if rng.random() < 0.6 else depth
         handler_at = rng.choice([0, 0] + list(range(1, depth + 1)) + [None])
         hcls = rng.choice(['异常', '异常', '自定错'])
         names = ['层%d' % i for i in range(1, depth + 1)]
         fstmt, known_msg = self.fault_stmt()
+        # some levels are methods of objects (receiver 体i, an instance of 户 named 名i): after the level below has returned — because
+        # an exception was handled somewhere below — 其 is still this level's receiver (read and written after the call)
+        objmode = rng.random() < 0.5
+        is_meth = [False] + [objmode and rng.random() < 0.65 for _ in range(depth)]     # index = level
+        # a handler that itself raises (log and re-throw); the re-raised exception may be taken by a handler further out
+        rethrow = handler_at is not None and handler_at >= 1 and rng.random() < 0.45
+        outer_at = rng.choice(list(range(1, handler_at)) * 2 + [0, None]) if rethrow else None
+        ocls = rng.choice(['异常', '异常', '自定错'])
+        if rethrow:
+            fault_at = rng.randint(handler_at, depth)
+            if rng.random() < 0.7:
+                # mostly: the inner handler matches what reaches it
+                hcls = '自定错' if isinstance(fstmt, Throw) and fstmt.cls == '自定错' else '异常'
+
+        def call_level(j, arg):
+            if is_meth[j]:
+                return MCall(Var('体%d' % j), [(names[j - 1], [arg])])
+            return Call(names[j - 1], [arg])
+
+        def handler_tail(hb, i):
+            k = rng.random()
+            if k < 0.4:
+                hb.append(Ret(Num(str(100 + i))))
+            elif k < 0.6:
+                # no 输出: the body's value is 空 whatever the last statement yields
+                hb.append(Decl(['次'], Num('1')))
+                hb.append(ExprS(Assign(Var('次'), Bin('+', Var('次'), Num('1')))))
+            elif k < 0.75:
+                hb.append(ExprS(Bin('+', Num('40'), Num(str(i)))))
+            elif k < 0.85:
+                hb.append(ExprS(Call('递补', [])))
+
+        funcs, meths = [], []
         for i in range(depth, 0, -1):
             # every level has a parameter 参 and a local 内i; the caller owns variables of the same names
             fb = [Decl(['内%d' % i], Bin('+', Var('参'), Num(str(i)))), ExprS(Call('显示', [Str('入%d' % i), Var('参')]))]
@@ -687,7 +883,7 @@ class G:
             if i == fault_at:
                 inner.append(fstmt)
             elif i < depth:
-                inner.append(ExprS(Call('显示', [Call(names[i], [Num(str(10 + i))])])))
+                inner.append(ExprS(Call('显示', [call_level(i + 1, Num(str(10 + i)))])))
             k = rng.random()
             if k < 0.25:
                 c = '计%d' % self.fresh()
@@ -701,39 +897,57 @@ class G:
                 fb.append(Iter([lv], Arr([Num('1'), Num('2')]), [ExprS(Call('显示', [Var(lv)]))] + inner))
             else:
                 fb += inner
-            fb.append(ExprS(Call('显示', [Str('出%d' % i)])))
+            if is_meth[i]:
+                fb.append(ExprS(Call('显示', [Str('出%d' % i), This('名')])))
+                fb.append(ExprS(Assign(This('次'), Bin('+', This('次'), Num('1')))))
+            else:
+                fb.append(ExprS(Call('显示', [Str('出%d' % i)])))
             fb.append(Ret(Num(str(10 * i))))
             catches = []
             if handler_at == i:
                 hb = [ExprS(Call('显示', [Str('拦%d' % i)]))]
                 if known_msg and rng.random() < 0.6:
                     hb.append(ExprS(Call('显示', [This('内容')])))
-                k = rng.random()
-                if k < 0.4:
-                    hb.append(Ret(Num(str(100 + i))))
-                elif k < 0.6:
-                    # no 输出: the body's value is 空 whatever the last statement yields
-                    hb.append(Decl(['次'], Num('1')))
-                    hb.append(ExprS(Assign(Var('次'), Bin('+', Var('次'), Num('1')))))
-                elif k < 0.75:
-                    hb.append(ExprS(Bin('+', Num('40'), Num(str(i)))))
-                elif k < 0.85:
-                    hb.append(ExprS(Call('递补', [])))
+                if rethrow:
+                    k = rng.random()
+                    if k < 0.45:
+                        hb.append(Throw('异常', [Str('再%d' % i)]))
+                    elif k < 0.65:
+                        hb.append(Throw('自定错', [Str('再文%d' % i)]))
+                    elif k < 0.8:
+                        hb.append(ExprS(Call('显示', [Bin('/', Num('1'), Num('0'))])))
+                    else:
+                        hb.append(ExprS(Call('显示', [Call('必败', [])])))
+                else:
+                    handler_tail(hb, i)
                 catches.append((hcls, hb))
                 if rng.random() < 0.3:
                     catches.insert(0, ('自定错' if hcls == '异常' else '异常', [ExprS(Call('显示', [Str('另')])), Ret(Num('-1'))]))
-            body.append(Func(names[i - 1], ['参'], fb, catches))
+            elif outer_at == i:
+                hb = [ExprS(Call('显示', [Str('外拦%d' % i)]))]
+                handler_tail(hb, i)
+                catches.append((ocls, hb))
+            (meths if is_meth[i] else funcs).append(Func(names[i - 1], ['参'], fb, catches))
+        if any(is_meth):
+            body.append(Class('户', [('名', Str('无')), ('次', Num('0'))], meths))
+        body += funcs
         body.append(Func('递补', [], [Ret(Num('77'))]))
+        body.append(Func('必败', [], [Throw('异常', [Str('败')])]))
         # the caller owns names equal to the callees' parameter and locals
         main = [Decl(['外'], Num('7')), Decl(['参'], Num('5'))]
+        objs = ['体%d' % i for i in range(1, depth + 1) if is_meth[i]]
+        for i in range(1, depth + 1):
+            if is_meth[i]:
+                main.append(Decl(['体%d' % i], New('户', [])))
+                main.append(ExprS(Assign(Prop(Var('体%d' % i), '名'), Str('名%d' % i))))
         if rng.random() < 0.5:
             main.append(Decl(['内1'], Num('50')))
             own_inner = True
         else:
             own_inner = False
-        call = Decl(['得'], Call(names[0], [Num('3')]))
+        call = Decl(['得'], call_level(1, Num('3')))
         if rng.random() < 0.3:
-            main.append(Iter(['回'], Arr([Num('1'), Num('2')]), [ExprS(Call('显示', [Call(names[0], [Var('回')])]))]))
+            main.append(Iter(['回'], Arr([Num('1'), Num('2')]), [ExprS(Call('显示', [call_level(1, Var('回'))]))]))
         else:
             main.append(call)
             main.append(ExprS(Call('显示', [Var('得'), Var('外')])))
@@ -748,15 +962,21 @@ class G:
             main.append(Decl(['内1'], Num('99')))   # not a redeclaration: the callee's 内1 is gone
             main.append(ExprS(Call('显示', [Var('内1')])))
         if rng.random() < 0.4:
-            main.append(ExprS(Call('显示', [Call(names[0], [Num('4')])])))
+            main.append(ExprS(Call('显示', [call_level(1, Num('4'))])))
+        if objs:
+            # every object as the calls left it: each level touched its own receiver only
+            main.append(ExprS(Call('显示', [Prop(Var(o), '名') for o in objs] + [Prop(Var(o), '次') for o in objs])))
+        if rng.random() < 0.15:
+            # the program body has no receiver, whatever was called before
+            main.append(ExprS(Call('显示', [This('名')])))
         catches = []
-        if handler_at == 0:
+        if handler_at == 0 or outer_at == 0:
             hb = [ExprS(Call('显示', [Str('主拦')]))]
             if rng.random() < 0.6:
                 hb.append(Ret(Num('55')))
             else:
                 hb.append(ExprS(Bin('+', Num('1'), Num('2'))))
-            catches.append((hcls, hb))
+            catches.append((hcls if handler_at == 0 else ocls, hb))
         return Program([], body + main, catches), {}
 
     # ---- collections through the interpreter (C12 program stream) ------------------------------------
